@@ -182,6 +182,22 @@ var filterSem = map[string]func(a map[string]string) bool{
 		v, oky := a["y"]
 		return okx || (oky && v != "b")
 	},
+	`attributes:z OR attributes:x OR attributes.y="ab"`: func(a map[string]string) bool {
+		_, okx := a["x"]
+		_, okz := a["z"]
+		return okz || okx || a["y"] == "ab" && has(a, "y")
+	},
+	`attributes:x AND attributes:y AND NOT attributes:z`: func(a map[string]string) bool {
+		return has(a, "x") && has(a, "y") && !has(a, "z")
+	},
+	// filters of the C07 delivery-level scenario
+	`-attributes:x`:                                  func(a map[string]string) bool { return !has(a, "x") },
+	`attributes.x != "a"`:                            func(a map[string]string) bool { return has(a, "x") && a["x"] != "a" },
+	`NOT attributes.x = "a" OR attributes:y`:         func(a map[string]string) bool { return !(has(a, "x") && a["x"] == "a") || has(a, "y") },
+	`hasPrefix(attributes.x, "a")`:                   func(a map[string]string) bool { return has(a, "x") && strings.HasPrefix(a["x"], "a") },
+	`NOT hasPrefix(attributes.x, "a")`:               func(a map[string]string) bool { return !(has(a, "x") && strings.HasPrefix(a["x"], "a")) },
+	`attributes:x OR attributes:y OR attributes:z`:   func(a map[string]string) bool { return has(a, "x") || has(a, "y") || has(a, "z") },
+	`attributes:x AND attributes:y AND attributes:z`: func(a map[string]string) bool { return has(a, "x") && has(a, "y") && has(a, "z") },
 	`attributes:x AND (NOT attributes.y="b" OR attributes:z)`: func(a map[string]string) bool {
 		_, okx := a["x"]
 		v, oky := a["y"]
@@ -189,6 +205,8 @@ var filterSem = map[string]func(a map[string]string) bool{
 		return okx && (!(oky && v == "b") || okz)
 	},
 }
+
+func has(a map[string]string, k string) bool { _, ok := a[k]; return ok }
 
 func subTakes(s *ent.Subscription, attrs map[string]string) (bool, bool) {
 	f := ""
